@@ -229,6 +229,13 @@ func (p *parser) readNumberToken() (string, error) {
 }
 
 func (p *parser) readType() (t Type, err error) {
+	return p.readTypeRef(false)
+}
+
+// readTypeRef reads a type reference or, if dir is true, the name of a
+// directive. Types and directives do not share a name space, a type and a
+// directive can have the same name.
+func (p *parser) readTypeRef(dir bool) (t Type, err error) {
 	var b byte
 	b, err = p.skipSpace()
 	if err == nil {
@@ -257,7 +264,13 @@ func (p *parser) readType() (t Type, err error) {
 			var token string
 			token, err = p.readToken()
 			if err == nil && 0 < len(token) {
-				if t = p.root.GetType(token); t == nil {
+				p.root.init()
+				if dir {
+					t = p.root.dirs.get(token)
+				} else {
+					t = p.root.types.get(token)
+				}
+				if t == nil {
 					t = &Ref{Base: Base{N: token}}
 				}
 			}
@@ -570,7 +583,7 @@ func (p *parser) readDirUse() (du *DirectiveUse, err error) {
 	// Skip @. No need to check errors since the next byte was already read.
 	_, _ = p.readByte()
 	du = &DirectiveUse{line: p.line, col: p.col - 1}
-	if du.Directive, err = p.readType(); err != nil {
+	if du.Directive, err = p.readTypeRef(true); err != nil {
 		return nil, err
 	}
 	if du.Directive == nil {
